@@ -33,6 +33,8 @@
  *   cmp <T> <hex a> <hex b>   lyd_value_compare / lyd_compare_single as in t_types.c -> 0 | 1 | E
  *   ci <T> <hex>         canonical string c1 of the value (lyd_new_term on l_<T>) and canonical string c2 of c1 stored again:
  *                        E | <hex c1> <hex c2|E>
+ *   iidp <T> <hex> <structure...>   as ci on the text <hex> (an instance-identifier); the remaining fields describe the same path
+ *                        as a structure for the model (S <hex module> <hex name> | K <hex key> <hex value> | L <hex value> | P <n>)
  *   cx <T> <hex>         the canonical string c1 of the value and what becomes of it: E | <hex c1> rs=<hex|E> cc=<OK|E> dp=<hex|E> dx=<hex|E>
  *                        rs: c1 stored again (lyd_new_term); cc: lyd_change_term_canon(node, c1); dp: lyd_dup_single (NE: prefix
  *                        when it compares unequal); dx: lyd_dup_single_to_ctx into a second context with the same modules
@@ -1071,6 +1073,9 @@ main(void)
         } else if (!strcmp(comp, "srt") && (c.nf >= 4) && find_type(c.f[1])) {
             do_srt(mod, &c);
         } else if (!strcmp(comp, "ci") && (c.nf >= 3) && find_type(c.f[1])) {
+            do_ci(mod, &c);
+        } else if (!strcmp(comp, "iidp") && (c.nf >= 3) && find_type(c.f[1])) {
+            /* the text form is stored; the structure fields that follow are for the model */
             do_ci(mod, &c);
         } else if (!strcmp(comp, "cx") && (c.nf >= 3) && find_type(c.f[1])) {
             do_cx(mod, &c);
